@@ -378,7 +378,7 @@ def _gen_vmdk_desc(tier):
     values = ["plain", "with space", "a=b", "ünï", "x\"y", "ffffffff", "C:\\dir\\f.vmdk", "/p/q r.vmdk"]
     spell = ["{k}={v}", '{k}="{v}"', '{k} = "{v}"', "{k} = {v}"]
     kinds = ["SPARSE", "FLAT", "VMFS", "VMFSSPARSE", "SESPARSE", "ZERO", "VMFSRDM", "VMFSRAW"]
-    names = ["d.vmdk", "d with space.vmdk", 'd"q.vmdk', "ünï-cödé.vmdk", "\U0001F4BE.vmdk"]
+    names = ["d.vmdk", "d with space.vmdk", 'd"q.vmdk', "ünï-cödé.vmdk", "\U0001F4BE.vmdk", "size=small & id#4.vmdk"]
     for v in values:
         for sp in spell:
             if sp.endswith("{v}") and (" " in v or '"' in v):
@@ -393,7 +393,7 @@ def _gen_vmdk_desc(tier):
 def _case_vmdk_desc(case, ctx):
     from dissect.hypervisor.disk.vmdk import DiskDescriptor
 
-    names = ["d.vmdk", "d with space.vmdk", 'd"q.vmdk', "ünï-cödé.vmdk", "\U0001F4BE.vmdk"]
+    names = ["d.vmdk", "d with space.vmdk", 'd"q.vmdk', "ünï-cödé.vmdk", "\U0001F4BE.vmdk", "size=small & id#4.vmdk"]
     d = []
     ctx.nontrivial += 1
     if case["mode"] == "kv":
